@@ -242,13 +242,31 @@ func (fc *FnCtx) chanInvariant(class string) ast.Expr {
 	return nil
 }
 
+// chanInvFor: invariant by channel class name, else by element type ("type:<elem>").
+func (fc *FnCtx) chanInvFor(ch ssa.Value) (ast.Expr, string) {
+	class := fc.chanClass(ch)
+	if inv := fc.chanInvariant(class); inv != nil {
+		return inv, class
+	}
+	if ct, ok := ch.Type().Underlying().(*types.Chan); ok {
+		tclass := "type:" + typeKey(ct.Elem())
+		if inv := fc.chanInvariant(tclass); inv != nil {
+			if class == "" {
+				class = tclass
+			}
+			return inv, class
+		}
+	}
+	return nil, class
+}
+
 func (fc *FnCtx) doSend(x *ssa.Send) {
 	ch := fc.operand(x.Chan)
 	_ = ch
-	class := fc.chanClass(x.Chan)
+	inv, class := fc.chanInvFor(x.Chan)
 	anchor := "send " + class
 	fc.anchorBefore(anchor, x.Pos())
-	if inv := fc.chanInvariant(class); inv != nil {
+	if inv != nil {
 		env := fc.anchorEnv()
 		env.bound["m"] = fc.operand(x.X)
 		n := fc.ordinal("send:" + class)
@@ -259,7 +277,7 @@ func (fc *FnCtx) doSend(x *ssa.Send) {
 }
 
 func (fc *FnCtx) doRecv(x *ssa.UnOp, ch Val) {
-	class := fc.chanClass(x.X)
+	inv, class := fc.chanInvFor(x.X)
 	anchor := "recv " + class
 	fc.anchorBefore(anchor, x.Pos())
 	var elemT types.Type = x.Type()
@@ -271,10 +289,12 @@ func (fc *FnCtx) doRecv(x *ssa.UnOp, ch Val) {
 	if x.CommaOk {
 		okT = fc.declareFresh("recvok", SortBool)
 	}
-	if inv := fc.chanInvariant(class); inv != nil {
+	if inv != nil {
 		env := fc.anchorEnv()
 		env.bound["m"] = v
-		fc.cur.assume(implies(okT, env.evalBool(inv)))
+		// the invariant also holds of the zero value delivered by a closed channel: close() is checked against it
+		_ = okT
+		fc.cur.assume(env.evalBool(inv))
 	}
 	if x.CommaOk {
 		z := zeroVal(elemT)
@@ -290,7 +310,23 @@ func (fc *FnCtx) doRecv(x *ssa.UnOp, ch Val) {
 	fc.anchorAfter(anchor, x.Pos())
 }
 
-func (fc *FnCtx) chanClose(ch Val, pos token.Pos) {}
+// chanClose: closing a channel that carries an invariant requires the zero value to satisfy it
+// (receivers assume the invariant of every received value, including the zero value of a closed channel).
+func (fc *FnCtx) chanClose(ch Val, pos token.Pos) {
+	call, ok := fc.curInstr.(ssa.CallInstruction)
+	if !ok || len(call.Common().Args) == 0 {
+		return
+	}
+	cv := call.Common().Args[0]
+	inv, class := fc.chanInvFor(cv)
+	if inv == nil {
+		return
+	}
+	ct := cv.Type().Underlying().(*types.Chan)
+	env := fc.anchorEnv()
+	env.bound["m"] = zeroVal(ct.Elem())
+	fc.oblige("chan-close", class, env.evalBool(inv), pos, "closing a channel whose invariant excludes the zero value")
+}
 
 func (fc *FnCtx) doSelect(x *ssa.Select) {
 	// result: (index int, recvOk bool, r_0 T_0, ... r_n-1 T_n-1)
@@ -308,8 +344,8 @@ func (fc *FnCtx) doSelect(x *ssa.Select) {
 	for si, s := range x.States {
 		if s.Dir == types.SendOnly {
 			// a send: invariant obligation under the case being chosen
-			class := fc.chanClass(s.Chan)
-			if inv := fc.chanInvariant(class); inv != nil {
+			inv, class := fc.chanInvFor(s.Chan)
+			if inv != nil {
 				env := fc.anchorEnv()
 				env.bound["m"] = fc.operand(s.Send)
 				fc.obligeAt(fc.cur, "chan-send", class, implies(eq(idx, bvLit(uint64(si), 64)), env.evalBool(inv)), x.Pos(), "channel invariant of "+class)
@@ -318,11 +354,11 @@ func (fc *FnCtx) doSelect(x *ssa.Select) {
 		}
 		t := tp.At(ri).Type()
 		v := fc.freshValWF("selrecv", t)
-		class := fc.chanClass(s.Chan)
-		if inv := fc.chanInvariant(class); inv != nil {
+		inv, _ := fc.chanInvFor(s.Chan)
+		if inv != nil {
 			env := fc.anchorEnv()
 			env.bound["m"] = v
-			fc.cur.assume(implies(and(eq(idx, bvLit(uint64(si), 64)), out.L[1]), env.evalBool(inv)))
+			fc.cur.assume(implies(eq(idx, bvLit(uint64(si), 64)), env.evalBool(inv)))
 		}
 		out.L = append(out.L, v.L...)
 		ri++
